@@ -1040,6 +1040,27 @@ def malformed_accepted(cases):
     return out
 
 
+def retype_numeric_columns(x):
+    """A result column holding only numbers and missing values is stored by pandas as float64 (its dtype inference over the
+    list of output rows): the int 0 comes back as 0.0.  That is pandas' doing, not the library's — in such columns ints are
+    compared as the floats they become (on both sides)."""
+    if isinstance(x, dict):
+        if 'columns' in x and 'rows' in x and isinstance(x['rows'], list) and x['rows'] and all(isinstance(r, list) for r in x['rows']):
+            rows = [list(r) for r in x['rows']]
+            width = min(len(r) for r in rows)
+            for j in range(width):
+                col = [r[j] for r in rows]
+                if any(c is None for c in col) and all(c is None or (isinstance(c, dict) and ('i' in c or 'f' in c)) for c in col):
+                    for r in rows:
+                        if isinstance(r[j], dict) and 'i' in r[j]:
+                            r[j] = {'f': f2hex(float(r[j]['i']))}
+            x = dict(x, rows=rows)
+        return {k: (retype_numeric_columns(v) if k != 'rows' else v) for k, v in x.items()}
+    if isinstance(x, list):
+        return [retype_numeric_columns(v) for v in x]
+    return x
+
+
 def strip_result_index(x):
     if isinstance(x, dict):
         return {k: strip_result_index(v) for k, v in x.items() if not (k == 'index' and 'columns' in x and 'rows' in x)}
@@ -1067,6 +1088,7 @@ def run_cases(cases):
             bad.append({'request': req, 'model': m, 'real': realr, 'kind': 'driver-failure'})
             continue
         mm, rr = norm_scores(copy.deepcopy(m)), norm_scores(copy.deepcopy(realr))
+        mm, rr = retype_numeric_columns(mm), retype_numeric_columns(rr)      # before any sorting of rows
         if meta in NORMALIZERS:
             mm, rr = NORMALIZERS[meta](mm, rr)
         if req.get('op') != 'filter_candset':
